@@ -66,6 +66,12 @@ func cfgGen(rng *vRand) *pb.ApiConfig {
 		if cp.MaxSize != 0 && cp.MinSize > cp.MaxSize {
 			cp.MinSize = cp.MaxSize
 		}
+		if rng.Intn(10) == 0 {
+			// legal, if odd: minSize above maxSize (or above the default maxSize 4);
+			// the effective configuration still equals the supplied one
+			cp.MinSize = uint32(5 + rng.Intn(2))
+			cp.MaxSize = uint32(rng.Intn(4)) // 0 (default 4), 1, 2, 3
+		}
 		cp.MaxConcurrentStreamsLowWatermark = []uint32{0, 1, 2, 3, 5}[rng.Intn(5)]
 		cp.FallbackToReady = rng.Bool()
 		if rng.Intn(3) == 0 {
@@ -314,8 +320,12 @@ func cfgPool(c *cfgCase, rng *vRand, cfg *pb.ApiConfig) {
 			c.report("C17.update-failed", "emptied", "resolver update on the emptied pool failed: %v", s.viol)
 			return
 		}
-		if len(s.pool()) < 1 || len(s.pool()) > wantMax {
-			c.report("C17.fixed-by-first", "emptied-pool-size", "re-created pool has %d channels, first config allows 1..%d", len(s.pool()), wantMax)
+		upper := wantMax
+		if wantMin > upper {
+			upper = wantMin // minSize above maxSize: the initial / re-created pool has minSize channels
+		}
+		if len(s.pool()) < 1 || len(s.pool()) > upper {
+			c.report("C17.fixed-by-first", "emptied-pool-size", "re-created pool has %d channels, first config allows 1..%d", len(s.pool()), upper)
 			return
 		}
 		// the rest of the observations (watermark, maxSize, method table) run on the re-created pool
